@@ -184,6 +184,7 @@ def run_stream(pieces: List[Tuple[str, str]], cuts: Sequence[int], thr: int) -> 
     ev = []
     fed = 0
     next_expected = 1
+    off_prev = 0
     for b in sorted(set(cuts)) + [len(text)]:
         if b <= fed:
             continue
@@ -205,6 +206,7 @@ def run_stream(pieces: List[Tuple[str, str]], cuts: Sequence[int], thr: int) -> 
         except Exception as e:
             raised = f"{type(e).__name__}: {e}"
         ids, genuine = [], []
+        off_now = fed - len(buf.data)                # characters consumed so far; this call consumed (off_prev, off_now]
         for m in got[:200]:
             ok = 0
             ident = 0
@@ -212,22 +214,22 @@ def run_stream(pieces: List[Tuple[str, str]], cuts: Sequence[int], thr: int) -> 
                 try:
                     vw = view(m)
                     ok = 1 if view(IndiMessage.from_string(m.to_string())) == vw else 0
-                    # which of the stream's messages is it?  the next not yet delivered one with this content
-                    for j in range(next_expected, len(msgs) + 1):
-                        if expect[j] == vw:
-                            ident = j
-                            next_expected = j + 1
-                            break
-                    else:
-                        for j in range(1, next_expected):
-                            if expect[j] == vw:
-                                ident = j
-                                break
+                    # which of the stream's messages is it?  one with this content that lies in the region this call consumed
+                    # (a message assembled from junk elsewhere is none of them: id 0)
+                    region = [j for j in range(1, len(msgs) + 1)
+                              if msgs[j - 1]["first"] > off_prev and msgs[j - 1]["last"] <= off_now and expect[j] == vw]
+                    fresh = [j for j in region if j >= next_expected]
+                    if fresh:
+                        ident = fresh[0]
+                        next_expected = ident + 1
+                    elif region:
+                        ident = region[0]            # delivered twice: the contract will object
                 except Exception:
                     ok = 0
             ids.append(ident)
             genuine.append(ok)
         ev.append({"fed": fed, "ids": ids, "genuine": genuine, "dlen": len(buf.data), "raised": raised})
+        off_prev = off_now
         if raised:
             break
     return {"thr": thr, "clean": clean, "msgs": msgs, "ev": ev, "text": text}
@@ -296,9 +298,136 @@ def truncation_streams(tier: str):
             yield [("dirty", full[:k]), ("msg", tail[: tail.index("\n", 25) + 1]), ("msg", tail[tail.index("\n", 25) + 1:]), ("junk", "z" * 2100)]
 
 
+def handler_traces(r, tier: str) -> List[dict]:
+    """Bytes through the REAL connection handlers (client TCP with and without for_blobs, server TCP): the receive path
+    `await reader.read(1024)` -> decode -> Buffer.  Streams carry raw non-ASCII bytes (UTF-8 and Latin-1) and are cut at
+    byte level, also inside multi-byte characters.  The reference for "identical content" is the same handler fed one
+    whole message per read; every other fragmentation must deliver exactly the same messages (CleanContract)."""
+    import asyncio
+    from ..fakes import FakeWriter, StepLoop
+    from indi.routing import Device as RoutingDevice
+    from indi.routing import Router
+    from indi.transport.client import tcp as client_tcp
+    from indi.transport.server import tcp as server_tcp
+
+    class Rec(RoutingDevice):
+        def __init__(self):
+            self.got = []
+
+        def accepts(self, device):
+            return True
+
+        def message_from_client(self, message):
+            self.got.append(message)
+
+    def run(kind: str, chunks: List[bytes]):
+        loop = StepLoop(virtual=True)
+        asyncio.set_event_loop(loop)
+        try:
+            reader = asyncio.StreamReader()
+            writer = FakeWriter(loop)
+            got: List[Any] = []
+            calls = []
+            if kind == "server":
+                server_tcp.ConnectionHandler.connections = []
+                router = Router()
+                dev = Rec()
+                router.register_device(dev)
+                got = dev.got
+                task = loop.create_task(server_tcp.ConnectionHandler.handler(router)(reader, writer))
+                loop.settle()
+                handler = server_tcp.ConnectionHandler.connections[0]
+            else:
+                handler = client_tcp.ConnectionHandler(reader, writer, got.append, for_blobs=(kind == "blob"))
+                task = loop.create_task(handler.wait_for_messages())
+                loop.settle()
+            fed = 0
+            for ch in chunks:
+                before = len(got)
+                reader.feed_data(ch)
+                loop.settle()
+                fed += len(ch)
+                raised = ""
+                if task.done() and task.exception() is not None:
+                    raised = repr(task.exception())
+                calls.append((fed, list(got[before:]), len(handler.buffer.data), raised))
+            return calls
+        finally:
+            for t in asyncio.all_tasks(loop):
+                t.cancel()
+            loop.settle(20)
+            loop.close()
+            asyncio.set_event_loop(None)
+
+    texts = ["zażółć gęślą jaźń", "café ☃ \U0001f52d", "ÿþý \xe9\xe8", "日本語テキスト", "a > b & \u20ac"]
+    out = []
+    nstreams = 12 if tier == "quick" else 120
+    for si in range(nstreams):
+        kind = ["client", "blob", "server"][si % 3]
+        msgs_b: List[bytes] = []
+        for _ in range(r.randint(1, 4)):
+            t = r.choice(texts)
+            if kind == "server":
+                o = M.NewTextVector(device=t, name="N", children=[one_parts.OneText(name="e", value=t + str(r.randint(0, 99)))])
+            else:
+                o = M.SetTextVector(device="D", name=t, state="Ok", children=[one_parts.OneText(name="e", value=t + str(r.randint(0, 99)))])
+            raw = spell(o.to_xml(), r.choice([0, 2, 4, 6, 8, 16]))
+            enc = "latin1" if all(ord(ch) < 256 for ch in raw) and r.random() < 0.5 else "utf-8"
+            msgs_b.append(raw.encode(enc))
+        stream = b"".join(msgs_b)
+        ref = run(kind, msgs_b)
+        expect = [view(m) for _, ms, _, _ in ref for m in ms]
+        if len(expect) != len(msgs_b):
+            expect = expect + [("<missing>",)] * (len(msgs_b) - len(expect))
+        layout = []
+        pos = 0
+        for j, b in enumerate(msgs_b):
+            body = b.rstrip()
+            layout.append({"id": j + 1, "first": pos + 1, "last": pos + len(body)})
+            pos += len(b)
+        n = len(stream)
+        plans = [[1] * n, [7] * (n // 7 + 1), [n]]
+        for _ in range(6 if tier == "quick" else 25):
+            k = r.randint(1, 10)
+            cuts = sorted(r.sample(range(1, n), min(k, n - 1)))
+            plans.append([b - a for a, b in zip([0] + cuts, cuts + [n])])
+        # cuts inside every multi-byte character
+        inside = [i for i in range(1, n) if stream[i] & 0xC0 == 0x80]
+        for i in inside[: (8 if tier == "quick" else 60)]:
+            plans.append([i, n - i])
+        for plan in plans:
+            chunks = []
+            p = 0
+            for ln in plan:
+                if p >= n:
+                    break
+                chunks.append(stream[p:p + ln])
+                p += ln
+            calls = run(kind, chunks)
+            nxt = 0
+            ev = []
+            for fed, ms, dlen, raised in calls:
+                ids, gen = [], []
+                for m in ms:
+                    vw = view(m)
+                    ident = 0
+                    for j in range(nxt, len(expect)):
+                        if expect[j] == vw:
+                            ident = j + 1
+                            nxt = j + 1
+                            break
+                    ids.append(ident)
+                    gen.append(1 if ident else 0)      # content differs from every fragmentation-free delivery
+                ev.append({"fed": fed, "ids": ids, "genuine": gen, "dlen": dlen, "raised": raised})
+            out.append({"thr": -1 if kind == "blob" else 2048, "clean": 1, "msgs": layout, "ev": ev,
+                        "text": f"[{kind} handler, {len(chunks)} reads] " + stream.decode("latin1")})
+    return out
+
+
 def run_into(v: Verdict, prop: str, tier: str) -> None:
     r = rng("framing")
-    traces = []
+    traces = handler_traces(r, tier)
+    v.notes["handler_level_traces"] = len(traces)
     thrs_all = [16, 128, 2048, -1]
     for pieces in build_streams(r, tier):
         text_len = sum(len(t) for _, t in pieces)
